@@ -34,4 +34,18 @@ CHECKS = {
         note="One table layout (two byte orders), rows<=6, row lists <=4 long; negative members in row lists and empty lists unconstrained; rows x columns crossed pairwise, not fully.",
         technique=LAT + " of row/column selections x access styles x delimiters against Python indexing, plus BFS over read histories",
     ),
+    "C03": dict(
+        engine="histories",
+        text="Explicit-state BFS over all histories (depth 5 quick / 9 thorough, then canonical-key de-duplication) of create/overwrite, append-by-reopen, 7 kinds of incompatible append, open(w|r+), repeated writes and bad writes on one handle, close - each transition executed on the real sfile/recfile code by replay from a fresh file - compared after every step with a list-of-rows reference model: content = concatenation, _SIZE = total rows, creation header retained, delimiter retained, data-section length, rejected appends raise and leave the bytes unchanged; second world for the header-less Recfile path; seeded from three non-initial files.",
+        design_ref="DESIGN.md 3 C03",
+        note="Rows per file bounded (<=6 quick, <=12 thorough), two dtypes, delimiters {None,','} quick / {None,',',tab,space} thorough; no reads through a second handle while a write handle is open.",
+        technique="explicit-state BFS over operation histories on the real file code (replay from fresh, full-state canonical key) against a reference model",
+    ),
+    "C04": dict(
+        engine="lattice",
+        text="Every table of the text dtype lattice (13 kinds x 3 shapes x 2 byte orders; 1-, 2-, 3-field and wide tables) with boundary cell values (integer extremes, floats over 600 decades, denormals, NaN, +-inf, +-0, strings with leading/embedded/trailing blanks, delimiter characters, tabs) x 6 delimiters x 5 writers x all readers is round-tripped on the real code and compared: integers/strings exact, floats to 16/7 significant digits, native byte order, names/shapes, header _DELIM/_DTYPE, input array untouched.",
+        design_ref="DESIGN.md 3 C04",
+        note="Tolerance 0.5*10^(e-15)+0.5ulp (f8), 0.5*10^(e-6)+0.5ulp (f4); DBL_MAX off the lattice (its 16-digit form overflows); known finding D9 recognised by an input predicate.",
+        technique=LAT + " of text tables x delimiters x writer x reader against a decimal-digit tolerance oracle",
+    ),
 }
